@@ -132,6 +132,16 @@ STREAM_CTORS = [
             '_concurrency': ('expr', lambda P: _truthy_or(P, 'concurrency', V.intv(z3.IntVal(128)))), '_name': 'parmapper_name'},
            pack='kwargs', numeric=True, asserts_hold=lambda P: z3.Or(P['concurrency'] == NONE, z3.And(V.is_intv(P['concurrency']), V.ival(P['concurrency']) >= 1)),
            canaries_=(('preprocessor dropped', 'self._preprocessor = preprocessor', 'self._preprocessor = None', ''),)),
+    stores('C16', F_STREAM_A, 'AsyncParmapper.__init__', ['instream', 'func', 'executor', 'concurrency', 'return_x', 'return_exceptions', 'preprocessor', 'executor_initializer', 'executor_init_args', 'parmapper_name'],
+           {'_instream': 'instream', '_func': 'func', '_func_kwargs': ('pack',), '_return_x': 'return_x', '_return_exceptions': 'return_exceptions', '_preprocessor': 'preprocessor',
+            '_executor_type': 'executor', '_executor_initializer': 'executor_initializer', '_executor_init_args': 'executor_init_args', '_name': 'parmapper_name',
+            # the same default as the sync Parmapper: by executor type
+            '_concurrency': ('expr', lambda P: z3.If(P['concurrency'] != NONE, P['concurrency'], z3.If(P['executor'] == V.strv(z3.StringVal('thread')), V.intv(z3.Int('_NUM_THREADS')), V.intv(z3.Int('_NUM_PROCESSES')))))},
+           pack='kwargs', numeric=True, extra_globals={'_NUM_THREADS': z3.Int('_NUM_THREADS'), '_NUM_PROCESSES': z3.Int('_NUM_PROCESSES')},
+           asserts_hold=lambda P: z3.And(z3.Or(P['executor'] == V.strv(z3.StringVal('thread')), P['executor'] == V.strv(z3.StringVal('process'))),
+                                         z3.Or(P['concurrency'] == NONE, z3.And(V.is_intv(P['concurrency']), V.ival(P['concurrency']) >= 1))),
+           canaries_=(('default concurrency of the other executor type', "concurrency = _NUM_THREADS if executor == 'thread' else _NUM_PROCESSES", "concurrency = _NUM_PROCESSES if executor == 'thread' else _NUM_THREADS", ''),
+                      ('return_exceptions not stored', 'self._return_exceptions = return_exceptions', 'self._return_exceptions = False', ''))),
 ]
 
 
